@@ -66,8 +66,8 @@ package referenceserver
 // have set is removed and the snapshot taken before the handler ran is restored.
 // rawErr[0] is the (discarded) result of the body encoder.
 //@ func (*rawResponseWriter).finish
-//@   option weakrange
 //@   requires r != nil && r.respWriter != nil && !held[r.mu] && snapshotHeaders != nil && hAddN[0] >= 0
+//@   requires snapshotHeaders != rwHeaderOf(r.respWriter) //# the snapshot is a clone taken before the handler ran
 //@   requires r.rawResp != nil ==> wfRawResponse(r.rawResp)
 //@   modifies held, hAddN, hAddH, hAddKey, hAddVal, map[string][]string, rwStatusN, rwStatus, wrOut, bufContent, cmpDst, cmpBuf, cmpBase, cmpBaseB, rawErr
 //@   ensures !held[r.mu]
@@ -88,6 +88,11 @@ package referenceserver
 //@        hAddH[at(old(hAddN[0]) + flatLen(r.rawResp.Headers, len(r.rawResp.Headers)) + len(r.rawResp.Trailers) + flatLen(r.rawResp.Trailers, j), i)] == rwHeaderOf(r.respWriter) &&
 //@        hAddKey[at(old(hAddN[0]) + flatLen(r.rawResp.Headers, len(r.rawResp.Headers)) + len(r.rawResp.Trailers) + flatLen(r.rawResp.Trailers, j), i)] == "Trailer:" + r.rawResp.Trailers[j].Name &&
 //@        hAddVal[at(old(hAddN[0]) + flatLen(r.rawResp.Headers, len(r.rawResp.Headers)) + len(r.rawResp.Trailers) + flatLen(r.rawResp.Trailers, j), i)] == r.rawResp.Trailers[j].Value[i]
+//@   assert_at "internal.AddHeaders(resp.Headers, r.respWriter.Header())": forall k string :: has(rwHeaderOf(r.respWriter), k) == has(snapshotHeaders, k) &&
+//@        (has(snapshotHeaders, k) ==> rwHeaderOf(r.respWriter)[k] == snapshotHeaders[k])
+//@   loop 0: invariant resp == r.rawResp && resp != nil && !held[r.mu] && forall k string :: has(rwHeaderOf(r.respWriter), k) ==> rangeidx(k) >= rangepos
+//@   loop 1: invariant resp == r.rawResp && resp != nil && !held[r.mu] && forall k string :: has(rwHeaderOf(r.respWriter), k) == (has(snapshotHeaders, k) && rangeidx(k) < rangepos)
+//@           invariant forall k string :: has(rwHeaderOf(r.respWriter), k) ==> rwHeaderOf(r.respWriter)[k] == snapshotHeaders[k]
 //@   loop 2: invariant hAddN[0] == atpre(hAddN[0]) + flatLen(resp.Headers, len(resp.Headers)) + rangeindex + 1
 //@           invariant resp == r.rawResp && resp != nil && wrOut == atpre(wrOut) && rwStatusN == atpre(rwStatusN) && rwStatus == atpre(rwStatus) && !held[r.mu]
 //@           invariant forall j int, i int :: 0 <= j && j < len(resp.Headers) && 0 <= i && i < len(resp.Headers[j].Value) ==>
